@@ -171,6 +171,9 @@ def gen_request(rng, focus=None):
         ("http-header-junk", b"GET " + q + b" HTTP/1.0\r\nno colon here\r\n: empty\r\nA:b\r\n\r\n", False),
         ("http-non-ascii", b"GET /caf\xe9 HTTP/1.0\r\n\r\n", False),
         ("https-head", b"HEAD " + q + b" HTTP/1.1\r\n\r\n", True),
+        ("http-many-query-fields", b"GET " + selb + b"?" + b"&".join(b"f%d=%d" % (i, i) for i in range(40)) + b" HTTP/1.0\r\n\r\n", False),
+        ("http-many-empty-query-fields", b"GET /?" + b"&" * 30 + b" HTTP/1.0\r\n\r\n", False),
+        ("wap-many-query-fields", b"GET /wap" + selb + b"?" + b";".join(b"k%d=v" % i for i in range(25)) + b"&" * 20 + b" HTTP/1.0\r\n\r\n", False),
         ("wap-top-only", b"GET /wap HTTP/1.0\r\n\r\n", False),
         ("wap-missing", b"GET /wap/nope HTTP/1.0\r\n\r\n", False),
         ("http-tab", b"GET\t" + q + b"\tHTTP/1.0\r\n\r\n", False),
@@ -239,7 +242,8 @@ def gen(seed, index, tier):
                         ["menu", "menu-via-symlink"], ["menu", "menu-via-symlink"],
                         ["zip-html-a", "zip-html-b", "zip-web-listing"],
                         ["mbox-message", "mbox-message-1", "mbox-folder", "maildir-message", "maildir-message-2"],
-                        ["zip-member", "zip2-member", "zip-listing", "zip2-listing"],
+                        ["zip-member", "zip2-member", "zip-listing", "zip2-listing", "zip-cross-1", "zip-cross-2"],
+                        ["zip2-member", "zip-cross-1", "zip-member", "zip-cross-2", "zip-cross-3"],
                         ["html", "tal", "gz", "script", "pyg"],
                         ["maildir-new", "maildir-folder", "maildir-message", "maildir-cur", "maildir-message-2"],
                         ["zip3-listing", "zip3-enc", "zip3-d64", "zip3-ok", "zip-gz-member", "zip-member"],
